@@ -23,7 +23,7 @@ var BranchTuples = []model.Branch{
 	{MidConn: "┣━", MidCont: "┃　", LastConn: "┗━", LastCont: "　　"},
 	{MidConn: "T", MidCont: "", LastConn: "", LastCont: "I"},
 	{MidConn: "--", MidCont: "--", LastConn: "==", LastCont: "=-"}, // continuation strings ending in connector characters
-	{MidConn: " ", MidCont: "  ", LastConn: " ", LastCont: "   "},   // blanks only
+	{MidConn: " ", MidCont: "  ", LastConn: " ", LastCont: "   "},  // blanks only
 }
 
 // allBranches lists every index of BranchTuples.
@@ -44,8 +44,9 @@ var ExtLists = [][]string{
 	{"gz"},       // bare suffix
 	{"z", ".gz"}, // overlapping suffixes
 	{".go", "Makefile", ".md"},
-	{""}, // empty string: every leaf
+	{""},                  // empty string: every leaf
 	{".gz", ".md", ".gz"}, // a duplicate entry
+	{".c", ".h", ".md", ".txt", ".yml", ".json", ".toml", ".sh", ".tar.gz", "Makefile", ".lock"}, // many entries
 }
 
 // extShared holds, per process, ONE clone of each extension list that is handed to gtree for
